@@ -3,7 +3,7 @@
 
 use crate::fw::*;
 use linfa::traits::Fit;
-use linfa::{Dataset, Float, ParamGuard};
+use linfa::{Dataset, Float};
 use linfa_elasticnet::{ElasticNetError, ElasticNetParams, MultiTaskElasticNetParams};
 use linfa_linear::{LinearError, TweedieRegressor};
 use linfa_logistic::{LogisticRegression, MultiLogisticRegression};
